@@ -122,6 +122,12 @@ func init() {
 					for _, p := range L.Patches {
 						if p.Target == g.ID {
 							patchPaths = append(patchPaths, p.Paths...)
+							continue
+						}
+						// a target selector {kind, name} also selects every other resource of that kind that bears the name at
+						// this point of ITS rename chain (`app` under an inner prefix `x` is `xapp` here): documented selection
+						if tg := t.resByID(p.Target); tg != nil && tg.Kind == g.Kind && t.chainNames(g)[tg.Name] {
+							patchPaths = append(patchPaths, p.Paths...)
 						}
 					}
 				}
